@@ -1369,5 +1369,10 @@ func runDupsRound(n int) string {
 	ctx, cancel := context.WithTimeout(context.Background(), labWait)
 	defer cancel()
 	serr := srv.Shutdown(ctx)
+	// the hook is process-wide: every datagram goroutine of THIS round (the released handler's included) must
+	// have passed "dgram.done" before the next round installs its counters, or a straggler is counted there
+	for quiesce := time.Now().Add(labWait); time.Now().Before(quiesce) && int(atomic.LoadInt32(&dones)) < n; {
+		time.Sleep(100 * time.Microsecond)
+	}
 	return fmt.Sprintf("starts=%d dropped=%d shutdown=%s", s, dn, errName(serr))
 }
